@@ -251,6 +251,30 @@ func ruleEncoderContract(r *core.Run, p *core.Prog, rel string) {
 			r.Check(rule, short+".Compress:reslice-under-capacity-guard", where, badGuard == "", badGuard)
 		}
 		r.Check(rule, short+".Compress:no-address-of-empty-slice", where, badAddr == "", badAddr)
+		// the size the scratch buffer is resliced to must be the codec's own worst-case bound
+		core.Walk(f.Decl.Body, false, func(x ast.Node) bool {
+			a, ok := x.(*ast.AssignStmt)
+			if !ok || len(a.Lhs) != 1 || len(a.Rhs) != 1 || core.ObjOf(info, a.Lhs[0]) != pBuf {
+				return true
+			}
+			se, ok := ast.Unparen(a.Rhs[0]).(*ast.SliceExpr)
+			if !ok || se.High == nil || zeroLen(info, se) {
+				return true
+			}
+			okB, src := false, core.Str(se.High)
+			if o := core.ObjOf(info, se.High); o != nil {
+				if d := singleDef(info, f.Decl.Body, o); d != nil {
+					src = core.Str(d)
+					if c, ok := stripConv(info, d).(*ast.CallExpr); ok {
+						fn := core.Str(c.Fun) + " " + core.CallName(info, c)
+						okB = strings.Contains(fn, "ompressBound") || strings.Contains(fn, "CompressBlockBound")
+					}
+				}
+			}
+			r.Check(rule, short+".Compress:buffer-sized-by-codec-bound", p.Rel(a.Pos()), okB,
+				"the output buffer is sized by "+src+" instead of the codec's own worst-case bound function: for incompressible input the codec needs up to its documented bound, a hand-written estimate makes large incompressible blocks fail in this build only")
+			return true
+		})
 		// what is written: data itself (null), library-length prefix of buf, or the library's returned slice
 		var wcall *ast.CallExpr
 		for _, c := range core.Calls(f.Decl.Body, false) {
